@@ -758,6 +758,14 @@ class MyPyAstVisitor:
         if not isinstance(lvalue, mp_nodes.NameExpr | mp_nodes.MemberExpr | mp_nodes.TupleExpr):
             return attributes
 
+        # In a constructor only "self.x = ..." defines an attribute. A name is a local variable, e.g. in
+        # "tmp, self.x = ...", and "self.x.y = ..." sets an attribute of another object.
+        if not is_static and (
+            isinstance(lvalue, mp_nodes.NameExpr)
+            or (isinstance(lvalue, mp_nodes.MemberExpr) and not isinstance(lvalue.expr, mp_nodes.NameExpr))
+        ):
+            return attributes
+
         if hasattr(lvalue, "name"):
             if self._is_attribute_already_defined(lvalue.name):
                 return attributes
@@ -772,20 +780,8 @@ class MyPyAstVisitor:
                 # Starred targets "a, *b = ..." and nested targets "(a, b), c = ..."
                 if isinstance(lvalue_, mp_nodes.StarExpr):
                     lvalue_ = lvalue_.expr
-                if isinstance(lvalue_, mp_nodes.TupleExpr):
-                    attributes.extend(self._parse_attributes(lvalue_, unanalyzed_type, is_static))
-                    continue
-
-                if not hasattr(lvalue_, "name"):
-                    # Other targets, e.g. "a, b[0] = ...", do not define attributes
-                    continue
-
-                if self._is_attribute_already_defined(lvalue_.name):
-                    continue
-
-                attributes.append(
-                    self._create_attribute(lvalue_, unanalyzed_type, is_static),
-                )
+                # Other targets, e.g. "a, b[0] = ...", do not define attributes
+                attributes.extend(self._parse_attributes(lvalue_, unanalyzed_type, is_static))
 
         return attributes
 
